@@ -18,7 +18,7 @@ ANCHORS = ["src/pylife/strength/fkm_nonlinear/assessment_nonlinear_standard.py",
            "src/pylife/materiallaws/notch_approximation_law.py"]
 SHARDS = {"quick": 12, "thorough": 16}
 WATCHDOG = {"quick": 1500, "thorough": 3300}
-REQUIRED_CLASSES = {t: ["batch:2..6_points", "batch:uniform_G", "batch:per_point_G", "batch:per_point_G_orders_apart", "batch:ratios_differ", "batch:dyadic_ratio",
+REQUIRED_CLASSES = {t: ["batch:2..6_points", "batch:uniform_G", "batch:per_point_G", "batch:per_point_G_orders_apart", "batch:ratios_differ", "batch:dyadic_ratio", "batch:load_ratio>1000",
                         "refine:interior", "refine:trailing", "mono:scale", "mono:R_z", "mono:P_A", "quantiles",
                         "load_scatter:normal", "load_scatter:lognormal", "load_scatter:unknown", "load_step_labels:descending",
                         "load_step_labels:shuffled", "node_ids:descending", "node_ids:shuffled_large", "index:selected_from_larger_mesh(unused_levels)",
@@ -212,6 +212,14 @@ def _run_case(case, ctx):
             ctx.tag("batch:dyadic_ratio")
         else:
             factors = [1.0] + rng.uniform(0.4, 1.8, k - 1).round(3).tolist()
+        if "s_L" not in ap and rng.random() < 0.3:
+            # a point that carries next to nothing beside highly loaded ones (ratios beyond 1000; powers of two, exact products).
+            # Only with a multiplicative or no load scatter: an absolute scatter s_L larger than half the maximum load of a point
+            # makes its load safety factor negative and mirrors its history - no longer a proportional point
+            factors[int(rng.integers(0, k))] = float(2.0 ** -int(rng.integers(11, 16)))
+            if factors[0] != 1.0:
+                factors[int(rng.integers(1, k))] = 1.0
+            ctx.tag("batch:load_ratio>1000")
         if len(set(factors)) > 1:
             ctx.tag("batch:ratios_differ")
         perG = rng.random() < 0.4
@@ -252,7 +260,13 @@ def _run_case(case, ctx):
             ress = assess(aps, single([v * f for v in seq]))
             if np.isfinite(float(_val(ress, "P_RAM_lifetime_n_cycles"))):
                 nontriv = True
-            praj_state = "unknown" if edge_amb else _praj_compare(resb, ress, p, ctx, {"point": p, "factor": f, "factors": factors, "per_point_G": bool(perG)})
+            # a point whose loads are of the size of the notch law's absolute solver tolerance (1e-4 MPa against table classes of
+            # max/200): its per-hysteresis internals are rounding noise in both runs and are not compared; the statement's
+            # lifetimes and verdicts are
+            tiny_point = max(abs(v) for v in seq) * f < 1.0
+            if tiny_point:
+                ctx.skip("batch:internals_of_a_point_loaded_below_1MPa_not_compared")
+            praj_state = "unknown" if (edge_amb or tiny_point) else _praj_compare(resb, ress, p, ctx, {"point": p, "factor": f, "factors": factors, "per_point_G": bool(perG)})
             for key in KEYS:
                 a, b = _val(resb, key, p), _val(ress, key)
                 mon = "batch==single:P_RAM_lifetime" if key.startswith("P_RAM") else "batch==single:P_RAJ_lifetime"
